@@ -13,7 +13,7 @@ import (
 // copy, F3 two-sided slice (incl. F3b), F4 parse results only on the success branch.
 
 func init() {
-	registerEngine("F", []string{"F1", "F2", "F3", "F4"}, runEngineF)
+	registerEngine("F", []string{"F1", "F2", "F3", "F4", "F5"}, runEngineF)
 }
 
 func runEngineF(p *Prog, o *obls) {
@@ -21,6 +21,7 @@ func runEngineF(p *Prog, o *obls) {
 		fF1F3(p, o, fn)
 		fF2(p, o, fn)
 		fF4(p, o, fn)
+		fF5(p, o, fn)
 	}
 }
 
@@ -37,7 +38,13 @@ func (p *Prog) pureKeyD(v ssa.Value, d int) string {
 	if d > 12 {
 		return fmt.Sprintf("deep@%p", v)
 	}
+	if s, ok := p.keySubst[v]; ok && s != v {
+		return p.pureKeyD(s, d+1)
+	}
 	v = p.origin(v)
+	if s, ok := p.keySubst[v]; ok && s != v {
+		return p.pureKeyD(s, d+1)
+	}
 	switch x := v.(type) {
 	case *ssa.Parameter:
 		return "param:" + x.Name() + "@" + x.Parent().Name()
